@@ -6,6 +6,7 @@ TARGETS = {
     "t_kernel": dict(variant="asan", srcs=["t_kernel.cc"], libs=RC),
     "t_queries": dict(variant="asan", srcs=["t_queries.cc"], libs=RC),
     "t_io": dict(variant="asan", srcs=["t_io.cc"], libs=RC),
+    "t_ascii": dict(variant="asan", srcs=["t_ascii.cc", "ascii_shim_poly.cc", "ascii_shim_tet.cc", "ascii_shim_hex.cc"], libs=RC),
     "t_faults": dict(variant="fuzzrel", srcs=["t_faults.cc"], libs=RC),
     "t_tet": dict(variant="asan", srcs=["t_tet.cc"], libs=RC),
     "t_hex": dict(variant="asan", srcs=["t_hex.cc"], libs=RC),
@@ -207,6 +208,7 @@ CHECKS = {
     ),
     "C06": dict(
         kind="rc_program", target="t_io", level="exploration",
+        also=dict(target="t_ascii", workers=4, quick_max_success=6000, thorough_max_success=60000, len_scale=0.6),
         quick=dict(workers=16, max_success=600, max_size=100, len_scale=0.6, timeout=900),
         thorough=dict(workers=16, max_success=2000, max_size=100, len_scale=1.5, timeout=3600),
         rule=("cases = generated polyhedral (random histories after garbage collection, non-manifold allowed), tetrahedral and "
@@ -218,14 +220,25 @@ CHECKS = {
               "writer's bytes to M; (3) re-encodings permitted by the description (1-4 spans per chunk kind, wider "
               "ints, float vertices, non-zero handle offsets, variable valence, optional unknown chunks, interleaved "
               "and split PROP chunks, extra zero padding) read to M; (4) topo_type detection; (5) a mesh with pending "
-              "deletions is refused or written as its logical content. non-trivial = >=1 cell and >=2 persistent "
+              "deletions is refused or written as its logical content. OVM-ASCII part (4 of the 16 workers, target "
+              "t_ascii; same mesh generators, persistent properties over all 28 value types of the ASCII typeName list "
+              "incl. extreme finite floats, binary strings with line breaks / '#' / NUL, invalid handles, nested "
+              "vectors, maps, names with blanks, '#' and inner quotes): (A1) an independent reader of the documented "
+              "text format (C strtol/strtod based, no library code) recovers counts, definitions, coordinates to 6 "
+              "significant digits and every property from the written text; (A2) readStream(writeStream(M)) == M to "
+              "printed precision for both topology_check / bottom-up values; (A3) a second round trip leaves the content "
+              "unchanged (byte-identical, or identical content when only the order of property blocks differs - that "
+              "order comes from a pointer-ordered set); (A4) writeFile/readFile give the same result and "
+              "isTetrahedralMesh/isHexahedralMesh detect all-tet / all-hex files and reject files with no cell or a cell "
+              "of another valence; (A5) tet/hex files read into PolyhedralMesh and all-tet polyhedral files into "
+              "TetrahedralMesh; (A6) pending deletions are refused. non-trivial = >=1 cell and >=2 persistent "
               "properties on different kinds incl. a half-entity kind and a bool/string property, or a directed "
               "boundary size; distinct = distinct program hash"),
         assumptions=["the reference codec implements extra/ovmb-kaitai/ovmb.ksy + binary_file_format.docu, no library code",
                      "each OVMB write allocates a 100 MB buffer (about 30 ms), which bounds the case count"],
-        technique="rapidcheck generated meshes/properties + round-trip, independent reference decoder, metamorphic reference encoder",
+        technique="rapidcheck generated meshes/properties + round-trip, independent reference decoders (OVMB from ovmb.ksy, ASCII from the format docu), metamorphic reference encoder",
         level_text="Round-trip, differential (independent codec) and metamorphic (all permitted encodings) testing of the binary format.",
-        level_note="Index widths beyond 65537 entities are not generated; the ASCII format part is not covered by this check yet.",
+        level_note="Index widths beyond 65537 entities are not generated. ASCII: property names are limited to what the quoted one-line header can carry (no line break, not starting or ending with a double quote); non-finite floating point values and white-space char values are listed known findings and excluded by construction (counted).",
     ),
     "C18": dict(
         kind="rc_program", target="t_faults", level="fault_enumeration",
